@@ -138,7 +138,12 @@ _CMP = {"debug_assert_eq": "==", "debug_assert_ne": "!=", "debug_assert_le": "<=
         "assert_eq": "==", "assert_ne": "!=", "assert_le": "<=", "assert_lt": "<", "assert_ge": ">=", "assert_gt": ">"}
 
 
-def r2_asserts(text, log):
+def r2_asserts(text, log, skip_ordinals=()):
+    """`skip_ordinals`: 0-based ordinals (in source order, counted over the debug_assert*! macros of this item) of debug assertions
+    that are NOT turned into obligations but erased - used by the driver only for a debug assertion that an edit ADDED (absent from the
+    generated baseline) and that cannot be stated in spec mode or cannot be proved: a debug assertion is not part of release builds,
+    and erasing it (unlike a failed `assert`, which the verifier assumes afterwards) assumes nothing."""
+    n_debug_seen = 0
     changed = True
     while changed:
         changed = False
@@ -161,8 +166,13 @@ def r2_asserts(text, log):
                     raise RewriteError("%s needs two arguments" % name)
                 e = "(%s) %s (%s)" % (span_text(text, st, *args[0]), _CMP[name], span_text(text, st, *args[1]))
             if name.startswith("debug_"):
-                rep = "assert(%s)" % e
-                key = "R2 debug-assert -> obligation"
+                if n_debug_seen in skip_ordinals:
+                    rep = "{ /* vx-skipped-new-debug-assert */ }"
+                    key = "R2s new debug assertion erased (not checked)"
+                else:
+                    rep = "assert(%s)" % e
+                    key = "R2 debug-assert -> obligation"
+                n_debug_seen += 1
             else:
                 rep = "if !(%s) { vx_abort(); }" % e
                 key = "R2b assert! -> abort-if-false"
@@ -356,10 +366,59 @@ def r5_refpattern(text, log):
 # ------------------------------------------------------------------------------------------------------------------
 # unit-local substitutions (R11 type paths, R7 outlines): token-sequence replace, every use is listed in evidence
 
-def subst(text, frm, to, log, must=True):
+def subst(text, frm, to, log, must=True, unify=False):
     pat = [t.text for t in sig(lex(frm))]
     st = sig(lex(text))
     hits = find_seq(st, pat)
+    if not hits:
+        # the same statement with only the TEXT of string literals reworded (an error / log message): still the statement the
+        # substitution was written for, provided the replacement does not mention those literals
+        lits = [x for x in pat if len(x) >= 2 and x[0] == '"' and x[-1] == '"']
+        if lits and not any(l in to for l in lits):
+            n = len(pat)
+            for i in range(0, len(st) - n + 1):
+                if all((st[i + k].text == pat[k]) or (pat[k] in lits and len(st[i + k].text) >= 2 and st[i + k].text[0] == '"' and st[i + k].text[-1] == '"') for k in range(n)):
+                    hits.append(i)
+            if hits:
+                log["subst matched with reworded string literal(s)"] = log.get("subst matched with reworded string literal(s)", 0) + len(hits)
+    per_hit_to = {}
+    if not hits and unify and len(pat) >= 8:
+        # the same statement with LOCAL names changed that no global renaming expresses (a shadowed variable renamed differently at its
+        # two bindings): identifiers of the pattern that no longer occur anywhere in the item, and that are not callee / path / field /
+        # macro names, unify with whatever identifier stands there (consistently within one match); the replacement follows
+        present = set(t.text for t in st)
+        import re as _re
+        var = set()
+        for k, x in enumerate(pat):
+            if _re.match(r"^[a-z_][a-z_0-9]*$", x) and x not in present and x not in ("self", "mut", "let", "ref", "move", "as", "in", "if", "else", "match", "return"):
+                nxt = pat[k + 1] if k + 1 < len(pat) else ""
+                prv = pat[k - 1] if k > 0 else ""
+                if nxt in ("(", "!", "::") or (nxt == ":" and k + 2 < len(pat) and pat[k + 2] == ":") or prv in (".", "::") or (prv == ":" and k > 1 and pat[k - 2] == ":"):
+                    continue
+                var.add(x)
+        lits = [x for x in pat if len(x) >= 2 and x[0] == '"' and x[-1] == '"' and x not in to]
+        if var:
+            n = len(pat)
+            for i in range(0, len(st) - n + 1):
+                bind = {}
+                ok = True
+                for k in range(n):
+                    a, b = pat[k], st[i + k]
+                    if a in var:
+                        if b.kind != "ident" or bind.get(a, b.text) != b.text or (b.text in present and b.text in pat):
+                            ok = False
+                            break
+                        bind[a] = b.text
+                    elif a == b.text or (a in lits and len(b.text) >= 2 and b.text[0] == '"' and b.text[-1] == '"'):
+                        continue
+                    else:
+                        ok = False
+                        break
+                if ok and len(set(bind.values())) == len(bind):
+                    hits.append(i)
+                    per_hit_to[i] = "".join(bind.get(t.text, t.text) if t.kind == "ident" else t.text for t in lex(to))
+            if hits:
+                log["subst matched with locally renamed identifier(s)"] = log.get("subst matched with locally renamed identifier(s)", 0) + len(hits)
     if not hits:
         if must:
             raise RewriteError("substitution source not found: `%s`" % frm)
@@ -369,7 +428,7 @@ def subst(text, frm, to, log, must=True):
     for i in hits:
         if st[i].start < last_end:
             continue
-        edits.append((st[i].start, st[i + len(pat) - 1].end, to))
+        edits.append((st[i].start, st[i + len(pat) - 1].end, per_hit_to.get(i, to)))
         last_end = st[i + len(pat) - 1].end
     key = "subst `%s` => `%s`" % (frm, to)
     log[key] = log.get(key, 0) + len(edits)
